@@ -99,6 +99,10 @@ class BuiltinMixin:
         v = a[0]
         if isinstance(v, Z) and v.t.kind in ("float", "real"):
             return v
+        if isinstance(v, Z) and v.t.kind == "dyn":
+            if not st.spec:
+                self.oblige(st, f"{st.frame.qualname}#side:type-float", smt.dyn_is("DFloat", v.e), "side")
+            return Z(T("float"), smt.dyn_acc("DFloat", 0, v.e))
         raise OutsideSubset("float()")
 
     def bi_bool(self, st, a, k):
@@ -426,6 +430,12 @@ class BuiltinMixin:
             if meth in ("isupper", "isdigit", "isalpha"):
                 fn = smt.ufunc("str." + meth, Str, Bool)
                 return zbool(fn(s))
+        if kind == "int":
+            if meth == "bit_length":
+                m = recv.e
+                if not st.spec and not self.branch(st, m >= 0, "bitlen-nonneg"):
+                    raise OutsideSubset("bit_length of a negative number")
+                return zint(self.bitlen(st, m))
         if kind == "dyn":
             if meth == "get":
                 k = self.to_z(st, args[0], T("str")).e
